@@ -530,6 +530,33 @@ def c43(inp, rng, out):
                     mism.add("C43:%s:unhashable" % cls_, "hash() raises TypeError (__eq__ defined without __hash__)", exo)
             if len(hs) == 2 and v["hash_eq"] and hs[0] != hs[1]:
                 mism.add("C43:%s:hash_differs" % who, "equal objects hash differently", exo)
+            if case["t"] == "node" and s1 == s2 and v["eq"] and isinstance(s1, bytes) and ca == cb and ca != "UnknownNode":
+                # one client, one capability, reached over the routes a real client uses: by cap string (write slot or read
+                # slot) and as the (rw_uri, ro_uri) pair found in a parent directory
+                try:
+                    nm = g.make_nodemaker()
+                    u = uri.from_string(s1)
+                    if not u.is_readonly() and u.is_mutable():
+                        ro = u.get_readonly().to_string()
+                        routes = [(s1, None), (s1, ro), (s1, None)]
+                    else:
+                        routes = [(s1, None), (None, s1), (s1, s1)]
+                    nodes = [nm.create_from_cap(w_, r_) for (w_, r_) in routes]
+                    mutable_ = bool(nodes[0].is_mutable())
+                    tag = "one_client_routes" if mutable_ else "one_client_immutable"
+                    for n2 in nodes[1:]:
+                        exr = dict(ex, routes=[[L.enc(x) if x else "" for x in rt] for rt in routes])
+                        if not (nodes[0] == n2) or (nodes[0] != n2):
+                            mism.add(("C43:%s:%s:eq_identity" % (ca, tag)) if mutable_ else ("C43:%s:eq_identity:%s" % (ca, tag)),
+                                     "one NodeMaker gave two unequal %s objects for one capability reached over two routes" % ca, exr)
+                            break
+                        if hash(nodes[0]) != hash(n2):
+                            mism.add(("C43:%s:%s:hash_differs" % (ca, tag)) if mutable_ else ("C43:%s:hash_differs:%s" % (ca, tag)),
+                                     "one NodeMaker gave %s objects of one capability that hash differently" % ca, exr)
+                            break
+                    stats["routes:" + ca] = stats.get("routes:" + ca, 0) + 1
+                except Exception as e:
+                    mism.add("C43:%s:one_client_routes:exception:%s" % (ca, type(e).__name__), str(e)[:200], ex)
             if len(samples) < 4 and r == 0 and v["eq"] and case["t"] != "cap":
                 samples.append({"a": L.enc(s1), "b": L.enc(s2), "classes": who, "spec_eq": v["eq"], "code_eq": eq, "code_ne": ne})
     g.close()
